@@ -37,3 +37,144 @@ def base_cfg(prob, salt=0, **kw):
     cfg = {"prob": {"f": prob, "salt": salt}, "x0": list(X0[prob]), "memo": True}
     cfg.update(kw)
     return cfg
+
+
+# ------------------------------------------------------------------------------------------------------------------
+# Broad option bank: every documented user parameter appears at a non-default value in at least one mode (several
+# in combination with the feature it belongs to).  The E1 property modules run their monitors over this bank in
+# addition to their own, more deeply explored, alphabets - so that a code path selected by an option nobody thought
+# of for that particular property is still visited.
+#   flags: random (documented as using random directions), noisy (answers depend on the call index), avg (sample
+#          averaging), sets (projections), reg (regulariser; slow), n3 (three variables)
+# ------------------------------------------------------------------------------------------------------------------
+_BOX2 = {"lo": [-1.5, -0.5], "hi": [0.9, 1.7]}
+_SETS2 = [{"t": "ball", "c": [0.0, 0.5], "r": 1.6}, {"t": "half", "a": [1.0, 1.0], "b": 1.6}]
+_R = {"restarts.use_restarts": True}
+_H = {"restarts.use_restarts": True, "restarts.use_soft_restarts": False}
+_G = {"growing.ndirs_initial": 1}
+
+BROAD_MODES = {
+    # initialisation
+    "init_random": ({"up": {"init.random_initial_directions": True}}, {"random"}),
+    "init_random_nonorthog": ({"up": {"init.random_initial_directions": True, "init.random_directions_make_orthogonal": False}}, {"random"}),
+    "init_random_parallel": ({"up": {"init.random_initial_directions": True, "init.run_in_parallel": True}, "npt": 5}, {"random"}),
+    "init_random_bounds_npt6": (dict(_BOX2, up={"init.random_initial_directions": True}, npt=6, x0=[0.9, -0.5]), {"random"}),
+    # growing phase
+    "grow": ({"up": dict(_G)}, {"random"}),
+    "grow_newdirs": ({"up": dict(_G, **{"growing.num_new_dirns_each_iter": 1, "growing.do_geom_steps": True})}, {"random"}),
+    "grow_reduce_delta": ({"up": dict(_G, **{"growing.safety.reduce_delta": True})}, {"random"}),
+    "grow_full_geom": ({"up": dict(_G, **{"growing.safety.full_geom_step": True})}, {"random"}),
+    "grow_no_safety": ({"up": dict(_G, **{"growing.safety.do_safety_step": False})}, {"random"}),
+    "grow_perturb": ({"up": dict(_G, **{"growing.perturb_trust_region_step": True, "growing.full_rank.use_full_rank_interp": False,
+                                        "growing.delta_scale_new_dirns": 0.5})}, {"random"}),
+    "grow_reset": ({"up": dict(_G, **{"growing.reset_delta": True, "growing.reset_rho": True, "growing.gamma_dec": 0.8})}, {"random"}),
+    "grow_fullrank_params": ({"up": dict(_G, **{"growing.full_rank.min_sing_val": 1e-3, "growing.full_rank.svd_scale_factor": 0.5,
+                                                "growing.full_rank.svd_max_jac_cond": 1e4, "growing.full_rank.scale_factor": 1e-1})}, {"random"}),
+    "grow_bounds": (dict(_BOX2, up=dict(_G), x0=[0.9, 1.7]), {"random"}),
+    "grow_n3": ({"up": {"growing.ndirs_initial": 2}, "prob": "nzr3"}, {"random", "n3"}),
+    "grow_inverse": ({"up": {"growing.ndirs_initial": 1}, "prob": "inv"}, {"random", "n3"}),
+    # regression
+    "reg_npt5_extra1": ({"npt": 5, "up": {"regression.num_extra_steps": 1}}, set()),
+    "reg_npt6_extra2": ({"npt": 6, "up": {"regression.num_extra_steps": 2}}, set()),
+    "reg_momentum": ({"npt": 5, "up": {"regression.num_extra_steps": 2, "regression.momentum_extra_steps": True}}, {"random"}),
+    "reg_momentum_bounds": (dict(_BOX2, npt=5, up={"regression.num_extra_steps": 1, "regression.momentum_extra_steps": True}), {"random"}),
+    "reg_increase_with_restart": ({"npt": 5, "up": dict(_R, **{"regression.num_extra_steps": 1, "regression.increase_num_extra_steps_with_restart": 1})}, set()),
+    # restarts
+    "soft_geom1": ({"up": dict(_R, **{"restarts.soft.num_geom_steps": 1})}, set()),
+    "soft_geom5_nomove": ({"npt": 5, "up": dict(_R, **{"restarts.soft.num_geom_steps": 5, "restarts.soft.move_xk": False})}, set()),
+    "soft_fake1": ({"up": dict(_R, **{"restarts.soft.max_fake_successful_steps": 1})}, set()),
+    "soft_inc_amt2": ({"up": dict(_R, **{"restarts.increase_npt": True, "restarts.increase_npt_amt": 2, "restarts.max_npt_plus": 3})}, {"random"}),
+    "soft_scale_mu1": ({"up": dict(_R, **{"restarts.rhoend_scale": 0.5, "restarts.max_unsuccessful_restarts": 1})}, set()),
+    "soft_noautodetect": ({"up": dict(_R, **{"restarts.auto_detect": False})}, set()),
+    "soft_bounds_scaling": (dict(_BOX2, scaling=True, up=dict(_R)), set()),
+    "hard_new_scale": ({"up": dict(_H, **{"restarts.hard.use_old_rk": False, "restarts.rhoend_scale": 0.5})}, set()),
+    "hard_inc_amt2_ndirs2": ({"up": dict(_H, **{"restarts.increase_npt": True, "restarts.increase_npt_amt": 2, "restarts.max_npt_plus": 3,
+                                                "restarts.hard.increase_ndirs_initial_amt": 2})}, set()),
+    "hard_inc_amt1_ndirs0": ({"up": dict(_H, **{"restarts.increase_npt": True, "restarts.max_npt_plus": 2,
+                                                "restarts.hard.increase_ndirs_initial_amt": 0})}, {"random"}),
+    "hard_mu1_bounds": (dict(_BOX2, up=dict(_H, **{"restarts.max_unsuccessful_restarts": 1})), set()),
+    "hard_autodetect_short": ({"up": dict(_H, **{"restarts.auto_detect.history": 3, "restarts.auto_detect.min_chgJ_slope": 0.0,
+                                                 "restarts.auto_detect.min_correl": 0.0}), "noise_amp": 0.3, "memo": False,
+                               "objfun_has_noise": True}, {"noisy"}),
+    # noise handling
+    "noise_flag": ({"objfun_has_noise": True, "noise_amp": 0.05, "memo": False}, {"noisy"}),
+    "noise_additive": ({"up": {"noise.quit_on_noise_level": True, "noise.additive_noise_level": 0.5, "noise.scale_factor_for_quit": 2.0},
+                        "noise_amp": 0.05, "memo": False}, {"noisy"}),
+    "noise_multiplicative": ({"up": {"noise.quit_on_noise_level": True, "noise.multiplicative_noise_level": 0.1}, "noise_amp": 0.05,
+                              "memo": False}, {"noisy"}),
+    "noise_additive_soft": ({"up": dict(_R, **{"noise.quit_on_noise_level": True, "noise.additive_noise_level": 0.5}), "noise_amp": 0.05,
+                             "memo": False}, {"noisy"}),
+    # averaging
+    "avg_const3": ({"nsamples": "const3", "noise_amp": 0.02, "memo": False}, {"noisy", "avg"}),
+    "avg_iter_soft": ({"nsamples": "iter%3+1", "noise_amp": 0.02, "memo": False, "up": dict(_R)}, {"noisy", "avg"}),
+    "avg_nruns_hard_new": ({"nsamples": "nruns+1", "noise_amp": 0.02, "memo": False, "up": dict(_H, **{"restarts.hard.use_old_rk": False})}, {"noisy", "avg"}),
+    "avg_const2_regression_bounds": (dict(_BOX2, nsamples="const2", noise_amp=0.02, memo=False, npt=5, up={"regression.num_extra_steps": 1}), {"noisy", "avg"}),
+    # trust-region management
+    "tr_etas": ({"up": {"tr_radius.eta1": 0.3, "tr_radius.eta2": 0.9}}, set()),
+    "tr_gammas": ({"up": {"tr_radius.gamma_dec": 0.25, "tr_radius.gamma_inc": 1.5, "tr_radius.gamma_inc_overline": 8.0}}, set()),
+    "tr_alphas": ({"up": {"tr_radius.alpha1": 0.5, "tr_radius.alpha2": 0.9}}, set()),
+    "tr_slow_gamma": ({"up": {"tr_radius.gamma_dec": 0.98, "tr_radius.alpha1": 0.9, "tr_radius.alpha2": 0.95}}, set()),
+    "general_shift_often": ({"up": {"general.rounding_error_constant": 10.0}, "x0": [50.0, -30.0]}, set()),
+    "general_shift_never": ({"up": {"general.rounding_error_constant": 1e-6}, "x0": [50.0, -30.0]}, set()),
+    "general_safety_thresh": ({"up": {"general.safety_step_thresh": 0.9}}, set()),
+    "general_no_overflow_check": ({"up": {"general.check_objfun_for_overflow": False}}, set()),
+    # termination
+    "tol_abs": ({"up": {"model.abs_tol": 1e-2}}, set()),
+    "tol_rel": ({"up": {"model.rel_tol": 1e-3}}, set()),
+    "slow_exit": ({"up": {"slow.history_for_slow": 2, "slow.thresh_for_slow": 1.0, "slow.max_slow_iters": 2}}, set()),
+    "slow_exit_soft": ({"up": dict(_R, **{"slow.history_for_slow": 1, "slow.thresh_for_slow": 10.0, "slow.max_slow_iters": 1})}, set()),
+    # interpolation / logging
+    "no_precondition": ({"up": {"interpolation.precondition": False}, "x0": [50.0, -30.0]}, set()),
+    "throw_on_nans": ({"up": {"interpolation.throw_error_on_nans": True}}, set()),
+    "diag": ({"up": {"logging.save_diagnostic_info": True}}, set()),
+    "diag_nopoised_soft": ({"up": dict(_R, **{"logging.save_diagnostic_info": True, "logging.save_poisedness": False})}, set()),
+    "log_whole_x": ({"up": {"logging.n_to_print_whole_x_vector": 1}, "do_logging": True}, set()),
+    # bounds
+    "bounds": (dict(_BOX2), set()),
+    "bounds_scaling": (dict(_BOX2, scaling=True), set()),
+    "bounds_scaling_magnitudes": ({"lo": [-1.21, -500.0], "hi": [-1.15, 1500.0], "scaling": True}, set()),
+    "bounds_onesided": ({"lo": [-1.5, None], "hi": None}, set()),
+    "bounds_x0_infeasible_both_ways": (dict(_BOX2, x0=[-2.5, 2.5]), set()),
+    "bounds_n3": ({"prob": "rosen3", "lo": [-1.5, -0.5, -1.0], "hi": [0.9, 1.7, 0.8]}, {"n3"}),
+    "one_variable": ({"prob": "one", "lo": [-0.5], "hi": [3.0]}, set()),
+    # projections
+    "sets": ({"sets": _SETS2}, {"sets"}),
+    "sets_bounds": (dict(_BOX2, sets=[_SETS2[0]]), {"sets"}),
+    "sets_dykstra_params": ({"sets": _SETS2, "up": {"dykstra.d_tol": 1e-6, "dykstra.max_iters": 20, "matrix_rank.r_tol": 1e-12}}, {"sets"}),
+    "sets_soft_x0_outside": ({"sets": _SETS2, "x0": [3.0, 2.5], "up": dict(_R)}, {"sets"}),
+    "sets_hard_bounds": (dict(_BOX2, sets=[_SETS2[1]], up=dict(_H)), {"sets"}),
+    # regulariser (slow: small budgets)
+    "l1": ({"reg": {"r": "l1", "lam": 0.05}}, {"reg"}),
+    "l2_args_bounds": (dict(_BOX2, reg={"r": "l2", "lam": 0.1, "args": True}), {"reg"}),
+    "l1_functol": ({"reg": {"r": "l1", "lam": 0.5}, "up": {"func_tol.criticality_measure": 1e-2, "func_tol.tr_step": 0.5, "func_tol.max_iters": 50,
+                                                          "sfista.max_iters_scaling": 1.0}}, {"reg"}),
+    "l1_sets": ({"reg": {"r": "l1", "lam": 0.05}, "sets": [_SETS2[0]]}, {"reg", "sets"}),
+}
+
+
+def broad_cfgs(probs=("rosen", "nzr"), budgets=(7, 25, 60), salt=0, exclude=(), require=(), extra_up=None, reg_budgets=(6, 12),
+               rhoend=0.01):
+    """(name, cfg) pairs of the broad bank.  Modes carrying a flag in `exclude` are skipped; `require` keeps only modes
+    that carry all the given flags; `extra_up` is merged into every user_params dict."""
+    out = []
+    for name, (m, flags) in BROAD_MODES.items():
+        if set(exclude) & flags or not set(require) <= flags:
+            continue
+        plist = [m["prob"]] if "prob" in m else list(probs)
+        for prob in plist:
+            n = DIM[prob]
+            npt = m.get("npt", n + 1)
+            for maxfun in (reg_budgets if "reg" in flags else budgets):
+                cfg = base_cfg(prob, salt, npt=npt, rhobeg=0.3, rhoend=rhoend, maxfun=maxfun, memo=m.get("memo", True),
+                               tag_mode="broad/" + name)
+                for k in ("lo", "hi", "scaling", "sets", "reg", "nsamples", "noise_amp", "objfun_has_noise", "do_logging"):
+                    if k in m:
+                        cfg[k] = m[k]
+                if "x0" in m and len(m["x0"]) == n:
+                    cfg["x0"] = list(m["x0"])
+                up = user_params(npt, m.get("up", {}), extra_up or {})
+                if up:
+                    cfg["user_params"] = up
+                cfg["broad_flags"] = sorted(flags)
+                out.append((name, cfg))
+    return out
